@@ -204,6 +204,16 @@ pub struct RunCtx {
 }
 
 static DIR_COUNTER: AtomicU64 = AtomicU64::new(0);
+static SCRATCH: std::sync::OnceLock<PathBuf> = std::sync::OnceLock::new();
+
+/// Fresh scratch directory (tmpfs when available), removed on drop.
+pub fn temp_dir() -> TempDir {
+    let root = SCRATCH.get().expect("scratch root");
+    let n = DIR_COUNTER.fetch_add(1, Ordering::Relaxed);
+    let p = root.join(format!("c{n}"));
+    std::fs::create_dir_all(&p).expect("case dir");
+    TempDir(p)
+}
 
 /// Scratch directory removed on drop.
 pub struct TempDir(pub PathBuf);
@@ -291,6 +301,7 @@ impl RunCtx {
         let scratch_root = base.join(format!("nvcheck-{}-{}", id, std::process::id()));
         let _ = std::fs::remove_dir_all(&scratch_root);
         std::fs::create_dir_all(&scratch_root).expect("scratch dir");
+        let _ = SCRATCH.set(scratch_root.clone());
         let known: Vec<KnownFinding> = std::fs::read_to_string(verif_root.join("known_findings.json"))
             .ok()
             .and_then(|s| serde_json::from_str::<Vec<KnownFinding>>(&s).ok())
@@ -393,11 +404,11 @@ impl RunCtx {
         section: &str,
         rule: &str,
         cases: u64,
-        strategy: S,
+        strategy: impl Fn() -> S + Sync,
         test: impl Fn(&C, &mut Obs) -> CaseResult + Sync,
     ) where
         C: std::fmt::Debug + Clone + Serialize + DeserializeOwned + Send,
-        S: Strategy<Value = C> + Clone + Send + Sync,
+        S: Strategy<Value = C>,
     {
         self.explore_with(section, rule, cases, Vec::new(), false, strategy, test)
     }
@@ -410,11 +421,11 @@ impl RunCtx {
         cases: u64,
         fixed: Vec<C>,
         exhaustive: bool,
-        strategy: S,
+        strategy: impl Fn() -> S + Sync,
         test: impl Fn(&C, &mut Obs) -> CaseResult + Sync,
     ) where
         C: std::fmt::Debug + Clone + Serialize + DeserializeOwned + Send,
-        S: Strategy<Value = C> + Clone + Send + Sync,
+        S: Strategy<Value = C>,
     {
         // ---- replay mode: only the named file
         if let Mode::Replay(path) = self.mode.clone() {
@@ -534,7 +545,7 @@ impl RunCtx {
                     if n == 0 {
                         continue;
                     }
-                    let strategy = strategy.clone();
+                    let strategy = &strategy;
                     let stop = &stop;
                     let shared = &shared;
                     std::thread::Builder::new()
@@ -554,6 +565,7 @@ impl RunCtx {
                             let local = RefCell::new(Agg::default());
                             let failed = std::cell::Cell::new(false);
                             let last_fail: RefCell<Option<Failure>> = RefCell::new(None);
+                            let strategy = strategy();
                             let res = runner.run(&strategy, |c| {
                                 if stop.load(Ordering::Relaxed) && !failed.get() {
                                     return Ok(());
